@@ -8,44 +8,6 @@
    DeferTick = shift by exactly one tick. *)
 From HV Require Import Hydro.Model.
 
-(* ------------------------------------------------------------------ generators (first / limit) *)
-
-Inductive gen : Type := GYield (v : val) | GReturn (v : val) | GContinue | GBreak.
-
-(* state of scan::<lifetime> wrapping Stream::generator's closure *)
-Inductive gst : Type := GInit | GActive (a : val) | GReturned | GDead.
-
-Definition gen_istep (init : val) (f : val -> val -> val * gen) (s : gst) (x : val)
-  : list val * gst :=
-  let go a :=
-    let (a', r) := f a x in
-    match r with
-    | GYield o => ([o], GActive a')
-    | GReturn o => ([o], GReturned)
-    | GContinue => ([], GActive a')
-    | GBreak => ([], GDead)          (* scan closure returns None: DFIR scan drops its state *)
-    end in
-  match s with
-  | GInit => go init
-  | GActive a => go a
-  | GReturned => ([], GDead)
-  | GDead => ([], GDead)
-  end.
-
-(* list-level meaning of a generator: process items until Return / Break *)
-Fixpoint gen_list (f : val -> val -> val * gen) (a : val) (l : list val) : list val :=
-  match l with
-  | [] => []
-  | x :: r =>
-      let (a', g) := f a x in
-      match g with
-      | GYield o => o :: gen_list f a' r
-      | GReturn o => [o]
-      | GContinue => gen_list f a' r
-      | GBreak => []
-      end
-  end.
-
 (* ------------------------------------------------------------------ tick IR *)
 
 Inductive bnode : Type :=
@@ -209,3 +171,81 @@ Definition chk30_loop (body : list val -> env -> list val) (ticks : list (list (
   let bs := map mkenv ticks in
   let m := loop_run body [] bs in
   verdict (ticks_agree true impl m) (ticks_agree true impl m).
+
+(* ------------------------------------------------------------------ generated vs hand-written terms
+   [g] is the term translated on this run from the production builder's IR dump, [h] the
+   hand-written corpus term: same model outputs on the case, same ordering, and the ordering the
+   model computes is the ordering the builder recorded in the node metadata *)
+Definition opt_bool_ok (expected : option bool) (b : bool) : bool :=
+  match expected with None => true | Some e => Bool.eqb e b end.
+Definition same_flow (g h : flow) (ticks : list (list (list val))) (expected : option bool) : N :=
+  let bs := map mkenv ticks in
+  if ticks_agree true (flow_run g bs) (flow_run h bs) && Bool.eqb (flow_exact g) (flow_exact h)
+     && match g with FS n => opt_bool_ok expected (ord n) | FA _ => true end
+  then 0%N else 1%N.
+Definition same_bnode (g h : bnode) (ticks : list (list (list val))) (expected : option bool) : N :=
+  let bs := map mkenv ticks in
+  if ticks_agree true (brun g bs) (brun h bs) && Bool.eqb (bord g) (bord h)
+     && opt_bool_ok expected (bord g)
+  then 0%N else 1%N.
+
+(* ------------------------------------------------------------------ NoOrder inputs as an oracle
+   A stream cast to NoOrder may reach its consumer in any order: [bspec_o sigma] is [bspec] where
+   every BWeaken node passes its batch through the arrival-order oracle [sigma] (a permutation). *)
+Fixpoint bspec_o (sigma : list val -> list val) (n : bnode) (bs : list env) : list (list val) :=
+  match n with
+  | BBatch i => map (fun e => e i) bs
+  | BWeaken x => map sigma (bspec_o sigma x bs)
+  | BMap f x => map (map f) (bspec_o sigma x bs)
+  | BFilter p x => map (filter p) (bspec_o sigma x bs)
+  | BFlatMap g x => map (flat_map g) (bspec_o sigma x bs)
+  | BChain x y => map (fun p => fst p ++ snd p) (combine (bspec_o sigma x bs) (bspec_o sigma y bs))
+  | BSort x => map vsort (bspec_o sigma x bs)
+  | BEnumerate x => map (enum_from 0) (bspec_o sigma x bs)
+  | BUnique x => map uniq (bspec_o sigma x bs)
+  | BJoin x y => map (fun p => join (fst p) (snd p)) (combine (bspec_o sigma x bs) (bspec_o sigma y bs))
+  | BCross x y => map (fun p => cross (fst p) (snd p)) (combine (bspec_o sigma x bs) (bspec_o sigma y bs))
+  | BAntiJoin x y => map (fun p => anti (snd p) (fst p)) (combine (bspec_o sigma x bs) (bspec_o sigma y bs))
+  | BCrossSingleton x s =>
+      map (fun p => match snd p with [] => [] | v :: _ => map (fun x => VP x v) (fst p) end)
+          (combine (bspec_o sigma x bs) (bspec_o sigma s bs))
+  | BFold init acc x => map (fun xs => [fold_left acc xs init]) (bspec_o sigma x bs)
+  | BReduce f x => map (fun xs => opt_list (reduce_list f xs)) (bspec_o sigma x bs)
+  | BFoldKeyed init acc x => map (fun xs => kentries (kfold_list init acc xs)) (bspec_o sigma x bs)
+  | BReduceKeyed f x => map (fun xs => kentries (kreduce_list f xs)) (bspec_o sigma x bs)
+  | BGen init f x => map (gen_list f init) (bspec_o sigma x bs)
+  | BDefer x => shift (bspec_o sigma x bs)
+  end.
+
+(* the REPAIRED ordering: a join / cross product is ordered only if BOTH sides are *)
+Fixpoint bord_fix (n : bnode) : bool :=
+  match n with
+  | BBatch _ => true
+  | BWeaken _ => false
+  | BMap _ x | BFilter _ x | BFlatMap _ x | BUnique x | BDefer x | BGen _ _ x => bord_fix x
+  | BChain x y | BJoin x y | BCross x y => bord_fix x && bord_fix y
+  | BSort _ | BEnumerate _ => true
+  | BAntiJoin x _ | BCrossSingleton x _ => bord_fix x
+  | BFold _ _ _ | BReduce _ _ => true
+  | BFoldKeyed _ _ _ | BReduceKeyed _ _ => false
+  end.
+
+(* what the staged API demands of order-sensitive operators (IsOrdered bounds, commutativity
+   obligations); sort over an unordered input is excluded only to keep the proof short *)
+Fixpoint bwf (n : bnode) : Prop :=
+  match n with
+  | BBatch _ => True
+  | BWeaken x | BMap _ x | BFilter _ x | BFlatMap _ x | BUnique x | BDefer x => bwf x
+  | BChain x y | BJoin x y | BCross x y | BAntiJoin x y => bwf x /\ bwf y
+  | BSort x | BEnumerate x | BGen _ _ x | BFoldKeyed _ _ x | BReduceKeyed _ x => bord_fix x = true /\ bwf x
+  | BCrossSingleton x s => bord_fix s = true /\ bwf x /\ bwf s
+  | BFold _ acc x => bwf x /\ (bord_fix x = false -> fold_comm acc)
+  | BReduce f x => bwf x /\ (bord_fix x = false -> comm_assoc f)
+  end.
+
+(* emission table for flows with shared (Tee'd) nodes: the model term duplicates a shared subterm at
+   every reference, the real graph contains it once (plus a structural tee): [extras] are the
+   shared subterms at their second and later references *)
+Definition chk_emit_dag (f : flow) (extras : list snode) (plumbing observed : list string) : N :=
+  if toks_eqb (("for_each"%string :: flow_emit f) ++ plumbing) (observed ++ concat (map emit_s extras))
+  then 0%N else 1%N.
